@@ -133,10 +133,8 @@ func (g *Generator) cookClient(typeName string) {
 					}
 
 					//------------Results---------------
-					n := 0
-					if ftype.Results != nil {
-						n = len(ftype.Results.List)
-					}
+					results := resultValues(ftype.Results) //one entry per returned value: `a, b T` declares two
+					n := len(results)
 					if n < 2 {
 						logx.Fatalf("method %s should at least return response and error", methodName)
 					}
@@ -144,22 +142,22 @@ func (g *Generator) cookClient(typeName string) {
 						logx.Fatalf("method %s must not return more than three values", methodName)
 					}
 
-					second2last := exprToString(ftype.Results.List[n-2].Type)
+					second2last := exprToString(results[n-2].typ)
 					if second2last != "*http.Response" {
 						logx.Fatalf("the second to last return value of method %s must be a http response pointer", methodName)
 					}
-					last := exprToString(ftype.Results.List[n-1].Type)
+					last := exprToString(results[n-1].typ)
 					if last != "error" {
 						logx.Fatalf("the last return value of method %s must be an error", methodName)
 					}
 
 					if n == 3 {
-						r := ftype.Results.List[0]
-						if len(r.Names) > 0 {
+						r := results[0]
+						if r.name != "" {
 							logx.Fatalf("method %s with named return list is not supported", methodName)
 						}
 
-						name, isPtr := getReturnTypeName(r.Type)
+						name, isPtr := getReturnTypeName(r.typ)
 						g.data.ReturnResultMap[methodName] = struct {
 							Type  string
 							IsPtr bool
@@ -179,6 +177,31 @@ func (g *Generator) cookClient(typeName string) {
 	if !found {
 		logx.Fatalf("rest client interface not exists: %s", typeName)
 	}
+}
+
+// resultValue is one value returned by a method.
+type resultValue struct {
+	name string // empty when the result is unnamed
+	typ  ast.Expr
+}
+
+// resultValues lists the returned values of a result list; a field declaring
+// several names (`a, b T`) yields one value per name.
+func resultValues(fl *ast.FieldList) []resultValue {
+	var values []resultValue
+	if fl == nil {
+		return values
+	}
+	for _, f := range fl.List {
+		if len(f.Names) == 0 {
+			values = append(values, resultValue{typ: f.Type})
+			continue
+		}
+		for _, name := range f.Names {
+			values = append(values, resultValue{name: name.Name, typ: f.Type})
+		}
+	}
+	return values
 }
 
 func exprToString(expr ast.Expr) string {
